@@ -156,6 +156,8 @@ def classify_failure(clause, detail, renames):
 CHOICE_CELLS = ["a", "b", "", 7]
 LIST_CELLS = [None, ["L", "a"], ["L", "a", "b"], ["L", "b", "", "a"], "a"]
 KEYS, VALS = ["a", "b", ""], ["a", "b", "c", ""]
+# choices whose JSON text differs from the choice itself (escapes: non-ASCII, quote, backslash)
+SPECIAL = ["caf\u00e9", "q\"t", "b\\s"]
 
 
 def _mappings():
@@ -169,6 +171,13 @@ def _mappings():
   return out
 
 
+def _special_mappings():
+  out = [{sp: "z"} for sp in SPECIAL]
+  out += [{SPECIAL[0]: SPECIAL[1], SPECIAL[1]: SPECIAL[0]}, {"a": SPECIAL[0]},
+          {SPECIAL[2]: "a", "a": SPECIAL[2]}, {SPECIAL[0]: "caf\u00e8"}]
+  return out
+
+
 def _tables(pool):
   for n in range(0, 3):
     for cells in itertools.product(pool, repeat=n):
@@ -179,13 +188,20 @@ def _tables(pool):
 
 
 def _cases(tier, seed):
+  # the escaped-JSON family first: it must not fall victim to the time limit
+  for kind in ("Choice", "ChoiceList"):
+    special_tables = ([[SPECIAL[0], SPECIAL[1]], [SPECIAL[2], "a"]] if kind == "Choice" else
+                      [[["L", SPECIAL[0], SPECIAL[1]], ["L", "a"]], [["L", SPECIAL[2], "a"], None]])
+    for cells in special_tables:
+      for m in _special_mappings():
+        yield dict(kind=kind, cells=cells, hole=False, renames=m)
   for kind, pool in (("Choice", CHOICE_CELLS), ("ChoiceList", LIST_CELLS)):
     for tb in _tables(pool):
       for m in _mappings():
         yield dict(kind=kind, cells=tb["cells"], hole=tb["hole"], renames=m)
 
 
-FILTERS = [("c", {"included": ["a", "b", "", 7]}), ("c", {"excluded": ["b", "zz"]}),
+FILTERS = [("c", {"included": ["a", "b", "", 7] + SPECIAL}), ("c", {"excluded": ["b", "zz", SPECIAL[0]]}),
            ("o", {"included": ["a", "b"]}), ("s", {"included": ["a", "b", ""]})]
 
 
@@ -249,7 +265,7 @@ gen.SEEDS["c39_filters"] = [
    ["AddRecord", "_grist_Filters", None, {"viewSectionRef": 2, "colRef": 2, "filter": ""}]],
 ]
 
-NAMES = ["a", "b", "c", "z", "x", "Hello"]
+NAMES = ["a", "b", "c", "z", "x", "Hello"] + SPECIAL
 
 
 class C39Monitor(explore.Monitor):
@@ -335,9 +351,10 @@ def main():
     "bounded, exhaustive part: one table T(c Choice|ChoiceList, o, s, f=$c) with 0..2 rows over the "
     "cell pools %r / %r plus two 3-row tables whose middle row was removed, 4 saved filters (two on "
     "c, one on each other column), every mapping with <= 2 keys from %r to values %r plus a "
-    "non-matching key and a 3-cycle; random part: seeded histories in which RenameChoices with "
+    "non-matching key and a 3-cycle, plus tables and mappings over the choices %r whose JSON text is "
+    "escaped (saved filters are written with json.dumps); random part: seeded histories in which RenameChoices with "
     "random mappings (incl. swaps/cycles) alternates with edits, type changes and removals; "
-    "not a proof" % (CHOICE_CELLS, LIST_CELLS, KEYS, VALS),
+    "not a proof" % (CHOICE_CELLS, LIST_CELLS, KEYS, VALS, SPECIAL),
     "mappings are str -> str; the column belongs to a user table that is not a summary table; "
     "formula columns, other trigger-formula columns and summary tables are outside the frame clause (they are recalculated / "
     "regrouped from the renamed data; C12 covers them); "
